@@ -4,6 +4,7 @@ NOTES = ("Solver-based checking of the real code. Engine A: Kani 0.68/CBMC 6.11 
 	"/repo's working tree (regenerated on every run). Engine B: nightly MIR dump -> SMT-LIB2 (z3/cvc5). Exit codes: 0 held / only "
 	"listed known findings; 1 VIOLATION (reproduced counterexample); 2 inconclusive (timeout, memory, vacuous cover, overlay mismatch).")
 ENGINES = [
+	{"name": "mir-smt", "path": "/verif/lib/engine_b.py", "serves_properties": ["C13"], "kind_free_text": "nightly MIR dump -> call skeleton -> SMT-LIB2 interleaving model, z3/cvc5"},
 	{"name": "kani-overlay", "path": "/verif/lib/vlib.py", "serves_properties": [], "kind_free_text": "Kani/CBMC bounded model checking of the repository's functions, harnesses in /verif/harness overlaid on a scratch copy"},
 ]
 BMC = "bounded model checking"
@@ -22,11 +23,67 @@ CHECKS["C20"] = {
 	"note": "HashMap replaced by an association-list model (hashing outside the claim); entry count and capacity concrete per instance (len <= cap <= 4), keys/values/stamps symbolic; capacities > 4 outside the bound.",
 	"technique": "inductive invariant step, bounded model checking of the real Rust code (Kani/CBMC + CaDiCaL)",
 }
+BMCT = "bounded model checking of the real Rust code (Kani/CBMC + CaDiCaL) over symbolic inputs"
+CHECKS["C19"] = {
+	"text": "One no-panic / no-abort / bounded-allocation harness per decoding entry point, decided by CBMC for EVERY byte string of the stated length "
+		"(exact sizes for the fixed-size headers: 66, 33, 127 bytes; short buffers and shape-directed inputs for the variable-length decoders). "
+		"Crashing inputs are single byte patterns (length fields, multi-byte varints) that sampling misses; a solver verdict over all bytes finds them.",
+	"note": "vec![0u8; n] routed through an allocation monitor (n <= 8*len + 64); format!/Backtrace stubbed (a panic inside a Display impl would be missed); u32::pow(2,z) model; HashMap model in BlockIndex/VTLPMap. "
+		"Outside: parse_vpl, number parsing, JSON/CSV text parsers (ByteIterator: no verdict within reach, DESIGN section 8), whole MBTiles/tar/directory containers, real decompressors.",
+	"technique": BMCT + "; shape-directed inputs for variable-length decoders",
+}
+CHECKS["C01"] = {
+	"text": "Layout kernels of the versatiles v02 and PMTiles v3 writers/readers: header, block definition, tile index, directory entries, Hilbert tile ids. "
+		"For all field values CBMC shows (a) an independent decoder written from the published layout recovers every field from the written bytes and (b) reader(writer(x)) = x. "
+		"Whether a written file can be read back, and by a foreign decoder, is decided by exactly this arithmetic.",
+	"note": "Outside the claim (stated in evidence): order/positions of the async writers' I/O operations, de-duplication, the 16 KiB root/leaf split, metadata, MBTiles/tar/directory, real compression, tile id round trip above zoom 10 (differential vs the spec algorithm up to zoom 31).",
+	"technique": BMCT + "; differential against an independent layout decoder / reference Hilbert algorithm",
+}
+CHECKS["C16"] = {
+	"text": "Decoding kernels on input from an independent encoder in the harness that uses freedoms the repository's writers never use: PMTiles run lengths > 1, shared offsets, leaf pointers, optional contiguous-offset shorthand; sparse versatiles block index with partial blocks. "
+		"find_tile is compared with the specification's linear lookup for every target id.",
+	"note": "Entry counts concrete per instance (0..5), fields symbolic (< 2^7 / 2^14 for encoded directories, full width for lookups). Outside: whole reader runs over async I/O, MBTiles/tar/directory, three-level PMTiles trees, real compression.",
+	"technique": BMCT + "; differential against a reference lookup",
+}
+CHECKS["C06"] = {
+	"text": "The real TilesConvertReader over an echo source (tiles = advertised coverage, payload = own coordinate): for all 4 flag combinations, all levels, full-width boxes and every requested coordinate CBMC decides "
+		"advertised coverage = {c in selection, T^-1(c) in source}, lookup returns exactly the source tile at the pre-image, and (thorough) the stream over any box <= 2x2 equals the lookups. The flip+swap defect needs both flags and an asymmetric coordinate: no test has it, the solver finds it.",
+	"note": "Source is a harness TilesReaderTrait implementation; futures driven by a hand-rolled block_on; map_blob_parallel replaced by a sequential map in the stream harness. Outside: writers (C01), CLI glue in convert.rs/serve.rs, geographic box -> pyramid (C15 geo harnesses).",
+	"technique": BMCT,
+}
+CHECKS["C04"] = {
+	"text": "Recompression pipeline and the converting reader under a codec model that is exactly the contract of a lossless codec: for all 3x3x2 (source, target, force) configurations and a symbolic payload, decoding the output under the DECLARED compression yields the source payload; pipeline empty iff nothing to do.",
+	"note": "gzip/brotli replaced by the tag model enc(p) = TAG ++ p (real codecs outside the claim); payload <= 3 bytes (the code never inspects payload bytes).",
+	"technique": BMCT + " under a lossless-codec model",
+}
+CHECKS["C11"] = {
+	"text": "Varint/zigzag/PBF value codecs decided for all 64-bit values; VectorTileLayer::read and read->to_blob->read compared against ground truth produced by an independent MVT encoder in the harness, with key/value tables that contain duplicates: every tag must still denote its ground-truth key and value, ids/geometry bytes/types unchanged.",
+	"note": "Layer shape concrete per instance (1-2 table entries, 1 feature, 1 tag pair), contents symbolic; HashMap model. Outside: the update_properties operation (Runner::run, BTreeMap-based GeoProperties), CSV, geometry decoding.",
+	"technique": BMCT + "; differential against ground truth from an independent encoder",
+}
+CHECKS["C05"] = {
+	"text": "Two decidable kernels of the tile endpoint: (1) optimize_compression for every (stored compression, allowed set, goal) x symbolic payload: error iff identity not allowed, encoding in the allowed set, body decodes to the stored tile, incompressible/fast rules; "
+		"(2) TileSource::get_data on every short request path over a 6-symbol alphabet: served iff the parsed coordinate holds the tile, 'not found' otherwise, error for unparsable parts, never a panic.",
+	"note": "Everything HTTP (routing, status line, headers, Accept-Encoding parsing) is outside the claim; codec model; tokio mutex uncontended; hand-rolled block_on.",
+	"technique": BMCT,
+}
+CHECKS["C07"] = {
+	"text": "The real Folder::get_data composed with a byte-level model of std::path (join/starts_with) and File::open as the I/O boundary: for EVERY request of up to 3 (quick) / 6 (thorough) bytes over {'/','.','a','%','2','e','\\'} the path handed to File::open resolves inside the root. "
+		"The byte-level model of Url::has_parent_segment used there is shown equal to the real helper by separate harnesses. A counterexample is replayed natively against Folder::from + get_data with a canary file outside the root.",
+	"note": "std::path functions are modelled from their documented semantics (the real Components state machine is out of reach for CBMC); symlinks, the tar source (exact-name lookup), the HTTP layer and percent-decoding (there is none) are outside the claim.",
+	"technique": BMCT + " with a std::path model; compositional (helper proven equal to its model)",
+}
+CHECKS["C13"] = {
+	"text": "Interleavings are the symbolic variable: the system-call skeleton of DataReaderFile::read_range/read_all is extracted from the nightly MIR dump of the current tree and n callers run it against POSIX open-file-description semantics in an SMT model; z3 (cvc5 cross-check) decides whether some schedule makes a caller read at a position other than its own offset. No test can choose a schedule; the solver ranges over all of them.",
+	"note": "n = 2 (quick) / 2,3 (thorough); success path only; unknown calls on the File value make the result inconclusive; tile lookups reduce to read_range by reading (async mutexes trusted). A sat verdict is replayed with 16 native threads.",
+	"technique": "MIR -> SMT-LIB2 interleaving model, decided by z3/cvc5",
+	"engine": "mir-smt",
+}
 NOT_APPLICABLE = {
 	"C12": "interrupted writes: needs whole-function runs of the async writers followed by readers on a buffer that depends on a symbolic crash point, and rests on gzip/brotli rejecting truncated streams (loops over input inside the codecs) - out of reach of CBMC (DESIGN.md section 5)",
 	"C14": "completion orders of tokio::spawn + buffer_unordered: Kani has no threads or tokio runtime; an SMT model of buffer_unordered would verify the model, not the repository (DESIGN.md section 5)",
 	"C18": "parse_vpl is a recursive nom combinator parser over heap strings: no CBMC verdict on 4 symbolic bytes in 25 min / 8 GB; the shortest interesting texts need 5-8 bytes (DESIGN.md section 5)",
 }
 PENDING = "check under construction in this session (harness set not yet registered)"
-for p in ["C01", "C02", "C03", "C04", "C05", "C06", "C07", "C08", "C09", "C10", "C11", "C13", "C16", "C17", "C19"]:
+for p in ["C02", "C03", "C08", "C09", "C10", "C17", "C19"]:
 	NOT_APPLICABLE.setdefault(p, PENDING)
